@@ -4,6 +4,8 @@ Real objects: KDComposeCollator / KDSingleCollator.__call__ / KDSingleCollatorWr
 collators of every default_collate_mode (identity, marking, ctx-writing) and the real PadSequencesCollator,
 fed with real ModeWrapper samples (with / without return_ctx).  `default_collate` as imported by
 kd_collator_base is wrapped to observe the operation trace."""
+import random as random_mod
+
 from .common import C, Nat, Opt, Raw, coq
 
 ID = "C18"
@@ -16,62 +18,134 @@ SHARD = 250
 TRUSTED = [
     "hand-written model coq/C18/Model.v of KDCollatorBase._call_impl, the three entry points and "
     "PadSequencesCollator.collate (repaired code); tied to KD_REPO by this run's correspondence evaluation",
-    "cited behaviour of torch default_collate (column-wise; scalars -> vector, equally long 1-d tensors -> matrix, "
-    "ragged -> RuntimeError; dicts: keys of the first element) and pad_sequence(batch_first=True) (zeros up to the "
-    "longest) -- exercised against the real torch on every case",
-    "harness/c18.py: member collators, default_collate spy, canonicalisation of tensors into integer lists",
-    "member collators are modelled by their contract (keeps_layout / keeps_ctx / extends_ctx); the harness members "
-    "identity / marking / ctx-writing satisfy it by construction",
+    "cited behaviour of torch default_collate (column-wise; scalars -> vector of their dtype, Python int -> int64, Python "
+    "float -> float64, equally shaped tensors -> stacked, ragged -> RuntimeError; dicts: keys of the first element) and "
+    "pad_sequence(batch_first=True) (tensors (L_i, *trailing) -> (B, max L_i, *trailing), zero steps appended, dtype and "
+    "trailing shape kept) -- exercised against the real torch on every case, element by element incl. dtype, trailing shape "
+    "and the sign of the zeros",
+    "harness/c18.py: member collators, default_collate spy, canonicalisation of tensors into (dtype, trailing shape, exact "
+    "integer lists); float fields only hold integral values so that they are exact",
+    "the harness' own members (identity / marking / ctx-writing) ARE the Coq functions Check.member_of; theorem "
+    "harness_members_meet_their_contracts proves the contracts (keeps_layout / keeps_ctx / extends_ctx / writes only "
+    "announced keys) for them.  REAL collators as members (KDMixCollator, KDDinoMaskCollator, KDIjepaMaskCollator, "
+    "MAEFinetuneMixCollator) are seen through that contract only (Check.KAddKeys): the image / one-hot label they rewrite and "
+    "the values they put into the context are opaque placeholders in the model (their content is C10 / C17's subject); "
+    "place, shape, dtype, finiteness of those items, every other item exactly, the exact key set of the context and the "
+    "operation trace are checked",
+    "DataLoader runs (family 'loader': the pipeline as collate_fn of a real torch DataLoader over the ModeWrapper, 0 / 2 forked "
+    "workers, batch sizes 1-4, drop_last) are judged by the Python oracle only (no operation trace from worker processes)",
 ]
 ASSUMPTIONS = [
     "ModeWrapper.return_ctx equals the collator's return_ctx (the code asserts this)",
-    "items are Python ints / 0-d tensors / 1-d integer tensors; all samples of a batch have the same ctx keys "
-    "(ragged key sets are only compared with the model, nothing is claimed)",
+    "items are Python ints / floats, 0-d tensors or tensors of shape (L, *trailing) with rank 1..3 (trailing dims 1..4) and "
+    "dtype int64 / int32 / float32 / float64 holding integral values; all samples of a batch agree in the dtype and "
+    "trailing shape of a field (what one dataset produces); string items are not generated",
+    "all samples of a batch have the same ctx keys; with different key sets the real code is only compared with the model "
+    "(keys of the first sample; KeyError if a later sample lacks one) -- that the property's 'without losing keys' fails "
+    "there is the recorded finding fixes/C18_ragged_ctx_keys.txt (reproduce: C18_PROBE_RAGGED_CTX_KEYS=1 ./check C18)",
     "a None-mode member that collates by itself (PadSequencesCollator) followed by a member that asks for default "
     "collation is an ambiguity of the contract: counted in the evidence (feature 'ambiguous'), not claimed",
     "a member list whose order the call rejects by its assertions (None/After after collation) counts as rejected input",
 ]
 ALLOWED_AXIOMS = []
-RULE = ("random modes of 1-4 items (scalar / fixed / variable-length sequence / index), batch sizes 1-5 with repeated "
-        "indices, contexts with 0-3 keys, 1-4 members over {None,before,after} x {identity,mark,ctx-write,pad} (70% "
-        "well-ordered), entries compose/single/wrapper/direct-pad, length profiles equal/ragged; non-trivial = at "
-        "least one member call observed; distinct by (entry, rc, member modes+kinds, item kinds, length profile)")
+RULE = ("random modes of 1-4 items (Python int / float, 0-d tensor, sequence tensor of rank 1-3 with trailing dims 1-4 and dtype "
+        "int64/int32/float32/float64, fixed-length next to ragged fields, empty sequences, index), batch sizes 1-5 with repeated "
+        "indices, contexts with 0-3 keys (6% with ragged key sets), 1-4 members over {None,before,after} x "
+        "{identity,mark,ctx-write,pad} (70% well-ordered), entries compose/single/wrapper/direct-pad; directed: every mode list up to "
+        "length 3, the padding collator over every rank/dtype/length profile through every entry; family 'real': the package's "
+        "own collators (mix, dino mask, ijepa mask, MAE-finetune mix) as members over image/one-hot/index/scalar items; family "
+        "'loader': real DataLoader runs (quick 6, thorough 160); non-trivial = at least one member call observed; distinct by "
+        "(entry, rc, member modes+kinds, item kinds incl. dtype/rank/length profile, profile)")
 
 MODES = {"none": "MNone", "before": "MBefore", "after": "MAfter"}
+
+# a defect recorded instead of repaired (see fixes/C18_ragged_ctx_keys.txt): proposed entry for known_findings.json
+KNOWN_FINDINGS_PROPOSED = [
+    {"property": "C18", "match": {"probe": "ragged_ctx_keys"},
+     "what": "per-sample contexts with different key sets (reachable through KDRandomApply / KDTransformChoice, whose "
+             "skipped / other branch writes no key): the batched context follows the FIRST sample -- keys only later "
+             "samples have are silently lost, a key a later sample lacks raises KeyError inside default_collate "
+             "(see fixes/C18_ragged_ctx_keys.txt)"},
+]
 
 
 # ---------------------------------------------------------------------------
 # generation
 # ---------------------------------------------------------------------------
+DTYPES = {"i64": "DI64", "i32": "DI32", "f32": "DF32", "f64": "DF64"}
+
+
+def kind_of(case, it):
+    """normalised description of one item: {'k': 'scalar'|'seq', 'd': dtype, 'py': bool, 'tr': [trailing dims]}
+    (legacy corpus cases say just 'scalar' / 'seq' = int64, rank 1, Python int unless case['scalar_tensor'])"""
+    k = case["kinds"][it]
+    if isinstance(k, str):
+        return {"k": k, "d": "i64", "py": not case["scalar_tensor"], "tr": []}
+    if k["k"] == "opaque":
+        return {"k": "opaque", "shape": list(k["shape"])}
+    return {"k": k["k"], "d": k.get("d", "i64"), "py": k.get("py", not case["scalar_tensor"]), "tr": list(k.get("tr", []))}
+
+
+def numel(tr):
+    n = 1
+    for d in tr:
+        n *= d
+    return n
+
+
+def steps_of(v):
+    """a sequence value of a case -> list of flat steps (a bare int is a step of a rank-1 sequence)"""
+    return [[e] if isinstance(e, int) else list(e) for e in v]
+
+
+def gen_kind(rng, pad_case):
+    """scalar (Python int / Python float / 0-d tensor of any dtype) or a sequence of rank 1, 2 or 3"""
+    if rng.random() < 0.35:
+        py = rng.random() < 0.6
+        d = rng.choice(["i64", "i64", "f64"]) if py else rng.choice(list(DTYPES))
+        return {"k": "scalar", "d": d, "py": py}
+    rank = rng.choice([1, 1, 2, 2, 3]) if pad_case else rng.choice([1, 1, 1, 2, 3])
+    tr = [rng.randint(1, 4) for _ in range(rank - 1)]
+    return {"k": "seq", "d": rng.choice(["i64", "i64", "f32", "f32", "i32", "f64"]), "tr": tr}
+
+
 def gen_case(rng, big=False):
     n = rng.choice([1, 1, 2, 2, 3, 4])
     names = ["f0", "f1", "f2", "f3"]
     items = names[:n]
     if rng.random() < 0.3:
         items[rng.randrange(n)] = "index"
-    B = rng.choice([1, 2, 2, 3, 3, 4, 5] + ([6, 8] if big else []))
+    B = rng.choice([1, 1, 2, 2, 3, 3, 4, 5] + ([6, 8] if big else []))
     rows_n = rng.choice([B, B, B + 1])
     order = [rng.randrange(rows_n) for _ in range(B)] if rng.random() < 0.4 else rng.sample(range(rows_n), B)
     entry = rng.choice(["compose"] * 6 + ["single", "wrapper", "direct", "direct"])
-    pad_case = entry == "direct" or rng.random() < 0.25
+    pad_case = entry == "direct" or rng.random() < 0.3
     profile = rng.choice(["ragged", "ragged", "equal"]) if pad_case else rng.choice(["equal"] * 5 + ["ragged"])
     kinds = {}
+    fixed_len = {}
     for it in items:
         if it == "index":
             continue
-        kinds[it] = rng.choice(["scalar", "seq", "seq"])
-    L = rng.randint(0, 4)
+        kinds[it] = gen_kind(rng, pad_case)
+        # a "fixed-shape tensor" field: the same length in every sample, next to ragged ones; length 0 = empty sequences
+        if kinds[it]["k"] == "seq" and (profile == "equal" or rng.random() < 0.25):
+            fixed_len[it] = rng.choice([0, 1, 1, 2, 3, 4])
     rows = []
     for r in range(rows_n):
         vals = {}
         for it in items:
             if it == "index":
                 continue
-            if kinds[it] == "scalar":
+            kd = kinds[it]
+            if kd["k"] == "scalar":
                 vals[it] = rng.randint(-5, 20)
             else:
-                ln = L if profile == "equal" else rng.randint(0, 5 if not big else 9)
-                vals[it] = [rng.randint(-3, 9) for _ in range(ln)]
+                ln = fixed_len[it] if it in fixed_len else rng.randint(0, 5 if not big else 9)
+                ne = numel(kd["tr"])
+                if kd["tr"]:
+                    vals[it] = [[rng.randint(-3, 9) for _ in range(ne)] for _ in range(ln)]
+                else:
+                    vals[it] = [rng.randint(-3, 9) for _ in range(ln)]
         rows.append(vals)
     rc = rng.random() < 0.5
     nkeys = rng.choice([0, 1, 1, 2, 3])
@@ -79,7 +153,7 @@ def gen_case(rng, big=False):
     ctx = []
     for r in range(rows_n):
         ks = list(keyset)
-        if nkeys and rng.random() < 0.03:
+        if nkeys and rng.random() < 0.06:
             ks = ks[:-1] if rng.random() < 0.5 else ks + [9]
         ctx.append([[k, rng.randint(0, 50)] for k in ks])
     members = []
@@ -105,6 +179,63 @@ def gen_case(rng, big=False):
             "members": members, "scalar_tensor": rng.random() < 0.4, "profile": profile}
 
 
+REAL_KEYS = {"mix": ["apply", "use_cutmix", "lambda"], "dino": ["mask"], "ijepa": ["encoder_masks", "predictor_masks"]}
+KEY_IDS = {"apply": 101, "use_cutmix": 102, "lambda": 103, "mask": 111, "encoder_masks": 121, "predictor_masks": 122}
+
+
+def gen_real_case(rng):
+    """pipelines whose members are the REAL collators of the package (KDMixCollator, KDDinoMaskCollator,
+    KDIjepaMaskCollator, all 'before' members that write context keys), alone / stacked / mixed with the harness'
+    identity and context-writing members of every mode, and the ready-made MAEFinetuneMixCollator; the batch carries an
+    image `x`, a one-hot `class` and optionally the index / a scalar field (their content after mixing is C10's subject:
+    here x and class are opaque, only their place, shape and dtype are checked)"""
+    entry = rng.choice(["compose"] * 5 + ["single", "wrapper", "mae", "mae"])
+    H, K = rng.choice([4, 6, 8]), rng.randint(2, 5)
+    if entry == "mae":
+        items = ["x", "class"]
+    else:
+        items = ["x"] + rng.sample(["class", "index", "f0"], rng.randint(0, 3))
+        rng.shuffle(items)
+    B = rng.choice([1, 2, 2, 3, 4, 4, 5, 6])
+    if entry == "mae" and B % 2 and B > 1:
+        B += 1
+    kinds = {"x": {"k": "opaque", "shape": [1, H, H]}, "class": {"k": "opaque", "shape": [K]},
+             "f0": {"k": "scalar", "d": rng.choice(["i64", "f64"]), "py": True}}
+    rows_n = B + rng.choice([0, 1])
+    rows = [{"x": r, "class": rng.randrange(K), "f0": rng.randint(-5, 20)} for r in range(rows_n)]
+    order = rng.sample(range(rows_n), B)
+    rc = rng.random() < 0.6 and entry != "mae"
+    keyset = rng.sample(range(1, 7), rng.choice([0, 1, 2]))
+    ctx = [[[k, rng.randint(0, 50)] for k in keyset] for _ in range(rows_n)]
+
+    def real_member():
+        kind = rng.choice(["mix", "mix", "dino", "ijepa"])
+        return ["before", kind, rng.randint(0, 999)]
+
+    if entry == "mae":
+        members = [["before", "mix", rng.randint(0, 999)]]
+    elif entry in ("single", "wrapper"):
+        members = [real_member()]
+    else:
+        m = rng.choice([1, 2, 2, 3, 4])
+        if rng.random() < 0.8:
+            a = rng.randint(0, m - 1)
+            modes = ["none"] * a + [rng.choice(["before", "before", "after"])] + ["before"] * (m - a - 1)
+        else:
+            modes = [rng.choice(["none", "before", "after"]) for _ in range(m)]
+        members = []
+        for md in modes:
+            if md == "before" and rng.random() < 0.75:
+                members.append(real_member())
+            else:
+                kind = rng.choice(["id", "ctxw"])
+                members.append([md, kind, rng.randint(1, 9) if kind == "ctxw" else 0])
+        if not any(mm[1] in REAL_KEYS for mm in members):
+            members.append(real_member())
+    return {"family": "real", "items": items, "kinds": kinds, "rows": rows, "ctx": ctx, "order": order, "rc": rc,
+            "entry": entry, "members": members, "scalar_tensor": False, "profile": "equal", "H": H, "K": K}
+
+
 def _fixed(items, kinds, rows, ctx, order, rc, entry, members, st=False):
     return {"items": items, "kinds": kinds, "rows": rows, "ctx": ctx, "order": order, "rc": rc, "entry": entry,
             "members": members, "scalar_tensor": st, "profile": "fixed"}
@@ -121,15 +252,44 @@ def directed_cases():
             for rc in (False, True):
                 out.append(_fixed(["f0", "f1"], {"f0": "seq", "f1": "scalar"}, rows, ctx, [0, 1, 2], rc, "compose",
                                   [[m, "mark" if i == 0 else "id", 3 if i == 0 else 0] for i, m in enumerate(modes)]))
+    # the padding collator on sequences of every rank / dtype next to scalars of every kind, through every entry point:
+    # batch size 1, equal lengths, ragged lengths, only empty sequences
+    for tr in ([], [1], [3], [2, 2], [4, 1]):
+        ne = numel(tr)
+        for d in ("i64", "f32"):
+            for lens in ([2], [3, 3], [1, 3, 2], [0, 2], [0, 0]):
+                rws = [{"f0": [[r + 1 + j + e for e in range(ne)] if tr else r + 1 + j for j in range(ln)],
+                        "f1": 10 + r, "f2": [r, r + 1]} for r, ln in enumerate(lens)]
+                kinds = {"f0": {"k": "seq", "d": d, "tr": tr}, "f1": {"k": "scalar", "d": "f64", "py": True},
+                         "f2": {"k": "seq", "d": "i32", "tr": []}}
+                cx = [[[1, r]] for r in range(len(lens))]
+                for entry, rc in (("direct", False), ("direct", True), ("compose", True), ("single", False), ("wrapper", True)):
+                    out.append(_fixed(["f0", "f1", "f2"], kinds, rws, cx, list(range(len(lens))), rc, entry,
+                                      [["none", "pad", 0]]))
     return out
 
 
+def probe_ragged_ctx_keys():
+    """the recorded finding: sample 1 has a context key sample 0 lacks (silently lost) / the other way round (KeyError)"""
+    rows = [{"f0": 1}, {"f0": 2}]
+    base = dict(items=["f0"], kinds={"f0": "scalar"}, rows=rows, order=[0, 1], rc=True, entry="compose",
+                members=[["before", "id", 0]], scalar_tensor=False, profile="fixed", probe="ragged_ctx_keys")
+    return [{**base, "ctx": [[[1, 7]], [[1, 8], [2, 5]]]}, {**base, "ctx": [[[1, 7], [2, 5]], [[1, 8]]]}]
+
+
 def gen_cases(rng, tier):
+    import os
     n = 900 if tier == "quick" else 9000
     out = directed_cases()
+    if os.environ.get("C18_PROBE_RAGGED_CTX_KEYS"):
+        out += probe_ragged_ctx_keys()
     out += [gen_case(rng) for _ in range(n)]
+    out += [gen_real_case(rng) for _ in range(n // 6)]
     if tier == "thorough":
         out += [gen_case(rng, big=True) for _ in range(3000)]
+        out += [gen_loader_case(rng) for _ in range(160)]
+    else:
+        out += [gen_loader_case(rng) for _ in range(6)]
     return out
 
 
@@ -137,13 +297,13 @@ def search_cases(rng, tier):
     for c in directed_cases():
         yield c
     for _ in range(30000):
-        yield gen_case(rng, big=rng.random() < 0.3)
+        yield gen_real_case(rng) if rng.random() < 0.15 else gen_case(rng, big=rng.random() < 0.3)
 
 
 def shrink(case):
     c = case
     for i in range(len(c["members"])):
-        if len(c["members"]) > 1:
+        if len(c["members"]) > 1 and c["entry"] != "mae":
             yield {**c, "members": c["members"][:i] + c["members"][i + 1:]}
     for i, m in enumerate(c["members"]):
         if m[1] in ("mark", "ctxw"):
@@ -151,8 +311,10 @@ def shrink(case):
     if len(c["order"]) > 1:
         for i in range(len(c["order"])):
             yield {**c, "order": c["order"][:i] + c["order"][i + 1:]}
-    if len(c["items"]) > 1:
+    if len(c["items"]) > 1 and c["entry"] != "mae":
         for i in range(len(c["items"])):
+            if c["items"][i] == "x" and c.get("family") == "real":
+                continue            # the real collators need the image
             yield {**c, "items": c["items"][:i] + c["items"][i + 1:]}
     if any(c["ctx"]):
         yield {**c, "ctx": [[] for _ in c["ctx"]]}
@@ -171,12 +333,25 @@ def writer_item(case):
     return None
 
 
+def sample_field(case, it, i):
+    """item `it` of sample i in canonical form: ['s', dtype, value] | ['q', dtype, trailing, steps]"""
+    if it == "index":
+        return ["s", "i64", i]
+    kd = kind_of(case, it)
+    v = case["rows"][i][it]
+    if kd["k"] == "opaque":
+        return ["s", "i64", 0]          # content not modelled: placeholder
+    if kd["k"] == "scalar":
+        return ["s", kd["d"], v]
+    return ["q", kd["d"], kd["tr"], steps_of(v)]
+
+
 def samples_of(case):
-    """[(items, ctx)] in batch order, items as ints / int lists, ctx as [[key, value]]"""
+    """[(items, ctx)] in batch order, items in canonical form, ctx as [[key, value]]"""
     out = []
     w = writer_item(case)
     for i in case["order"]:
-        vals = [i if it == "index" else case["rows"][i][it] for it in case["items"]]
+        vals = [sample_field(case, it, i) for it in case["items"]]
         out.append((vals, [list(kv) for kv in case["ctx"][i]] if w is not None else []))
     return out
 
@@ -213,7 +388,7 @@ def _build(case, log):
     from kappadata.wrappers.mode_wrapper import ModeWrapper
 
     w = writer_item(case)
-    st = case["scalar_tensor"]
+    tdt = {"i64": torch.int64, "i32": torch.int32, "f32": torch.float32, "f64": torch.float64}
 
     def make_getitem(name):
         def getitem(self, idx, ctx=None):
@@ -221,13 +396,21 @@ def _build(case, log):
                 for k, v in case["ctx"][idx]:
                     ctx[f"k{k}"] = v
             v = case["rows"][idx][name]
-            if isinstance(v, list):
-                return torch.tensor(v, dtype=torch.int64)
-            return torch.tensor(v, dtype=torch.int64) if st else v
+            kd = kind_of(case, name)
+            if kd["k"] == "opaque":
+                if name == "x":      # an image that identifies its sample
+                    return torch.arange(numel(kd["shape"]), dtype=torch.float32).reshape(kd["shape"]) / 64 + v
+                return torch.nn.functional.one_hot(torch.tensor(v), kd["shape"][0]).float()
+            if kd["k"] == "seq":
+                st = steps_of(v)
+                return torch.tensor(st, dtype=tdt[kd["d"]]).reshape(len(st), *kd["tr"])
+            if kd["py"]:
+                return float(v) if kd["d"] == "f64" else int(v)
+            return torch.tensor(v, dtype=tdt[kd["d"]])
         return getitem
 
     ns = {"__len__": lambda self: len(case["rows"])}
-    for name in ("f0", "f1", "f2", "f3"):
+    for name in case["kinds"]:
         ns["getitem_" + name] = make_getitem(name)
     DS = type("C18Dataset", (KDDataset,), ns)
 
@@ -271,54 +454,137 @@ def _build(case, log):
                     self.k = k
             return super().collate(batch, _, ctx)
 
+    def real_member(k, kind, arg, **kw):
+        """a real collator of the package; its collate() is logged, nothing else is touched"""
+        import numpy as np
+        from kappadata.collators import KDDinoMaskCollator, KDIjepaMaskCollator, KDMixCollator
+        r = random_mod.Random(arg)
+        B = len(case["order"])
+        if kind == "mix":
+            which = r.choice(["mixup", "cutmix", "both"])
+            cfg = dict(mixup_alpha=0.8 if which != "cutmix" else None, cutmix_alpha=1.0 if which != "mixup" else None,
+                       mixup_p={"mixup": 1.0, "cutmix": None, "both": 0.5}[which],
+                       cutmix_p={"mixup": None, "cutmix": 1.0, "both": 0.5}[which],
+                       apply_mode=r.choice(["batch", "sample"]), lamb_mode=r.choice(["batch", "sample"]),
+                       shuffle_mode=r.choice(["roll", "random"] + (["flip"] if B % 2 == 0 or B == 1 else [])))
+            c = KDMixCollator(**cfg, **kw)
+        elif kind == "dino":
+            c = KDDinoMaskCollator(mask_ratio=(0.1, 0.5), mask_prob=0.5, mask_size=4, num_views=1, **kw)
+        else:
+            c = KDIjepaMaskCollator(**kw)
+        c.set_rng(np.random.default_rng(arg))
+        orig = c.collate
+
+        def logged(batch, dataset_mode, ctx=None):
+            log.append(["call", k])
+            return orig(batch, dataset_mode, ctx)
+        c.collate = logged
+        return c
+
     mode = " ".join(case["items"])
     mw = ModeWrapper(DS(), mode=mode, return_ctx=case["rc"])
     batch = [mw[i] for i in case["order"]]
     kw = dict(dataset_mode=mode, return_ctx=case["rc"]) if case["entry"] == "single" else {}
-    members = [LoggedPad(k, **kw) if kind == "pad" else Member(k, md, kind, arg, **kw)
+    members = [LoggedPad(k, **kw) if kind == "pad" else
+               real_member(k, kind, arg, **kw) if kind in REAL_KEYS else Member(k, md, kind, arg, **kw)
                for k, (md, kind, arg) in enumerate(case["members"])]
-    return mode, batch, members
+    return mode, batch, members, mw
+
+
+_DT = None
+
+
+def _dt(t):
+    import torch
+    global _DT
+    if _DT is None:
+        _DT = {torch.int64: "i64", torch.int32: "i32", torch.float32: "f32", torch.float64: "f64"}
+    if t.dtype not in _DT:
+        raise ValueError(f"dtype {t.dtype}")
+    return _DT[t.dtype]
+
+
+def _ints(t):
+    """the numbers of a tensor as exact Python ints, row-major; refuses non-integral values and -0.0"""
+    import torch
+    if t.is_floating_point():
+        if t.numel() and (not bool(torch.isfinite(t).all()) or bool((t != t.round()).any())):
+            raise ValueError("non-integral value")
+        if t.numel() and bool(torch.signbit(t)[t == 0].any()):
+            raise ValueError("negative zero")
+    return [int(a) for a in t.reshape(-1).tolist()]
+
+
+def _chunks(flat, n, size):
+    return [flat[i * size:(i + 1) * size] for i in range(n)]
 
 
 def _field(v):
+    """one per-sample item as the implementation returned it"""
     import torch
     if torch.is_tensor(v):
         if v.ndim == 0:
-            return int(v.item())
-        if v.ndim == 1:
-            return [int(a) for a in v.tolist()]
-        raise ValueError("ndim")
-    if isinstance(v, bool) or not isinstance(v, int):
+            return ["s", _dt(v), _ints(v)[0]]
+        tr = list(v.shape[1:])
+        return ["q", _dt(v), tr, _chunks(_ints(v), v.shape[0], numel(tr))]
+    if isinstance(v, bool):
         raise ValueError("type")
-    return v
+    if isinstance(v, int):
+        return ["s", "i64", v]
+    if isinstance(v, float) and v == int(v):
+        return ["s", "f64", int(v)]
+    raise ValueError("type")
 
 
 def _cfield(t):
+    """one collated entry: (B,) -> vec; (B, M, *trailing) -> mat with rows of M steps of prod(trailing) numbers"""
     import torch
     if not torch.is_tensor(t):
         raise ValueError("not a tensor")
     if t.ndim == 1:
-        return ["vec", [int(a) for a in t.tolist()]]
-    if t.ndim == 2:
-        return ["mat", [[int(a) for a in r] for r in t.tolist()]]
+        return ["vec", _dt(t), _ints(t)]
+    if t.ndim >= 2:
+        tr = list(t.shape[2:])
+        B, M, ne = t.shape[0], t.shape[1], numel(tr)
+        flat = _ints(t)
+        return ["mat", _dt(t), tr, [_chunks(flat[b * M * ne:(b + 1) * M * ne], M, ne) for b in range(B)]]
     raise ValueError("ndim")
 
 
-def canon_batch(b, n):
-    """-> ['coll', [cfield]] | ['items', [[field]]] | ['other', repr]"""
+def _opaque(t, shape, B):
+    """an item whose content is not modelled (image / one-hot label handed to a real collator): float32, finite, of the
+    expected shape -> the placeholder the model carries; anything else -> error"""
     import torch
+    want = ([B] if B is not None else []) + list(shape)
+    if not (torch.is_tensor(t) and t.dtype == torch.float32 and list(t.shape) == want and bool(torch.isfinite(t).all())):
+        raise ValueError(f"opaque item: expected a finite float32 tensor of shape {want}")
+    return ["s", "i64", 0] if B is None else ["vec", "i64", [0] * B]
+
+
+def canon_batch(b, n, opaque=None, B=None):
+    """-> ['coll', [cfield]] | ['items', [[field]]] | ['other', repr];
+    opaque = {position: per-sample shape} for the items whose content is not modelled"""
+    import torch
+    opaque = opaque or {}
+
+    def cf(p, e):
+        return _opaque(e, opaque[p], B) if p in opaque else _cfield(e)
+
+    def f(p, e):
+        return _opaque(e, opaque[p], None) if p in opaque else _field(e)
+
     try:
         if torch.is_tensor(b):
             if n != 1:
                 return ["other", f"one tensor of shape {list(b.shape)} for a mode of {n} items"]
-            return ["coll", [_cfield(b)]]
+            return ["coll", [cf(0, b)]]
         if isinstance(b, (list, tuple)):
             if n == 1:
-                return ["items", [[_field(e)] for e in b]]
+                return ["items", [[f(0, e)] for e in b]]
             if len(b) > 0 and all(torch.is_tensor(e) and e.ndim >= 1 for e in b):
-                return ["coll", [_cfield(e) for e in b]]
+                return ["coll", [cf(p, e) for p, e in enumerate(b)]]
             if all(isinstance(e, (list, tuple)) for e in b):
-                return ["items", [[_field(v) for v in e] for e in b]]
+                return ["items", [[f(p, v) for p, v in enumerate(e)] for e in b]]
     except ValueError as e:
         return ["other", f"{e}: {b!r}"[:300]]
     return ["other", repr(b)[:300]]
@@ -327,18 +593,104 @@ def canon_batch(b, n):
 def canon_ctx(ctx):
     out = []
     for k, v in ctx.items():
-        out.append([int(k[1:]), [int(a) for a in v.reshape(-1).tolist()]])
+        if k in KEY_IDS:            # written by a real collator: the value is not modelled
+            out.append([KEY_IDS[k], []])
+        else:
+            out.append([int(k[1:]), [int(a) for a in v.reshape(-1).tolist()]])
     return out
+
+
+def loader_batches(case):
+    n = len(case["rows"])
+    bs = case["batch_size"]
+    out = [list(range(i, min(i + bs, n))) for i in range(0, n, bs)]
+    if case["drop_last"] and out and len(out[-1]) < bs:
+        out.pop()
+    return out
+
+
+def gen_loader_case(rng):
+    """a tiny-member pipeline used as collate_fn of a real torch DataLoader over the ModeWrapper (batch size, drop_last,
+    0 or 2 worker processes); every batch must be what the collator gives on the same samples"""
+    while True:
+        c = gen_case(rng, big=rng.random() < 0.5)
+        if c["entry"] == "direct" or is_ambiguous(c):
+            continue
+        if len({tuple(k for k, _ in cx) for cx in c["ctx"]}) != 1:
+            continue
+        c = {**c, "family": "loader", "order": list(range(len(c["rows"]))), "batch_size": rng.choice([1, 2, 3, 4]),
+             "drop_last": rng.random() < 0.3, "workers": rng.choice([0, 0, 2])}
+        if not loader_batches(c):
+            continue
+        if all((expected({**c, "order": b}) or ("x",))[0] == "ok" for b in loader_batches(c)):
+            return c
+
+
+def run_loader(case, mode, members, mw):
+    from torch.utils.data import DataLoader
+    from kappadata.collators.base import KDComposeCollator, KDSingleCollatorWrapper
+    rc = case["rc"]
+    if case["entry"] == "compose":
+        coll = KDComposeCollator(members, dataset_mode=mode, return_ctx=rc)
+    elif case["entry"] == "single":
+        coll = members[0]
+    else:
+        coll = KDSingleCollatorWrapper(members[0], dataset_mode=mode, return_ctx=rc)
+    n = len(case["items"])
+    kw = dict(multiprocessing_context="fork") if case["workers"] else {}
+    obs = {"res": "ok", "batches": [], "trace": []}
+    try:
+        loader = DataLoader(mw, batch_size=case["batch_size"], shuffle=False, drop_last=case["drop_last"],
+                            num_workers=case["workers"], collate_fn=coll, **kw)
+        for out in loader:
+            is_pair = isinstance(out, tuple) and len(out) == 2 and isinstance(out[1], dict)
+            if is_pair:
+                obs["batches"].append({"returns_ctx": True, "batch": canon_batch(out[0], n), "ctx": canon_ctx(out[1])})
+            else:
+                obs["batches"].append({"returns_ctx": False, "batch": canon_batch(out, n), "ctx": None})
+        del loader
+    except Exception as e:  # noqa
+        obs = {"res": "Other", "msg": type(e).__name__ + ": " + str(e)[:300], "trace": []}
+    return obs
+
+
+def oracle_loader(case, obs):
+    desc = (f"DataLoader(batch_size={case['batch_size']}, drop_last={case['drop_last']}, num_workers={case['workers']}) "
+            f"members={case['members']} mode={' '.join(case['items'])!r} rc={case['rc']} entry={case['entry']}")
+    if obs["res"] != "ok":
+        return f"iterating the DataLoader raised {obs.get('msg', '')} ({desc})"
+    want = loader_batches(case)
+    if len(obs["batches"]) != len(want):
+        return f"{len(obs['batches'])} batches, expected {len(want)} ({desc})"
+    for k, (idxs, got) in enumerate(zip(want, obs["batches"])):
+        exp = expected({**case, "order": idxs})
+        if exp is None or exp[0] != "ok":
+            continue
+        if got["returns_ctx"] != case["rc"]:
+            return f"batch {k}: returns (batch, ctx) = {got['returns_ctx']} but return_ctx = {case['rc']} ({desc})"
+        if got["batch"] != exp[1]:
+            return f"batch {k} (samples {idxs}) differs: expected {exp[1]} got {got['batch']} ({desc})"
+        if case["rc"] and got["ctx"] != exp[2]:
+            return f"batch {k} (samples {idxs}): context differs: expected {exp[2]} got {got['ctx']} ({desc})"
+    return None
 
 
 def run_impl(case):
     import kappadata.collators.base.kd_collator_base as kcb
     from kappadata.collators.base import KDComposeCollator, KDSingleCollatorWrapper
     log = []
-    mode, batch, members = _build(case, log)
+    mode, batch, members, mw = _build(case, log)
+    if case.get("family") == "loader":
+        return run_loader(case, mode, members, mw)
     n = len(case["items"])
     rc = case["rc"]
     real = kcb.default_collate
+    opaque = {p: kind_of(case, it)["shape"] for p, it in enumerate(case["items"])
+              if it != "index" and kind_of(case, it)["k"] == "opaque"}
+    B = len(case["order"])
+
+    def cb(b):
+        return canon_batch(b, n, opaque, B)
 
     def spy(b):
         is_ctx = isinstance(b, (tuple, list)) and len(b) > 0 and all(isinstance(e, dict) for e in b)
@@ -354,6 +706,20 @@ def run_impl(case):
             out = members[0](batch)
         elif case["entry"] == "wrapper":
             out = KDSingleCollatorWrapper(members[0], dataset_mode=mode, return_ctx=rc)(batch)
+        elif case["entry"] == "mae":
+            # the ready-made pipeline of kappadata.common: its own member, only logged and seeded
+            import numpy as np
+            from kappadata.common.collators import MAEFinetuneMixCollator
+            mae = MAEFinetuneMixCollator()
+            assert mae.dataset_mode == mode and mae.return_ctx is False and len(mae.collators) == 1
+            mae.set_rng(np.random.default_rng(case["members"][0][2]))
+            orig = mae.collators[0].collate
+
+            def logged(b, dataset_mode, ctx=None):
+                log.append(["call", 0])
+                return orig(b, dataset_mode, ctx)
+            mae.collators[0].collate = logged
+            out = mae(batch)
         else:
             members[0].k = None
             out = members[0].collate(batch, mode, {})
@@ -362,17 +728,17 @@ def run_impl(case):
                 ok = isinstance(out, tuple) and len(out) == 2 and isinstance(out[1], dict)
                 obs = {"res": "ok", "returns_ctx": ok}
                 if ok:
-                    obs["batch"], obs["ctx"] = canon_batch(out[0], n), canon_ctx(out[1])
+                    obs["batch"], obs["ctx"] = cb(out[0]), canon_ctx(out[1])
                 else:
                     obs["batch"], obs["ctx"] = ["other", repr(out)[:300]], None
             else:
-                obs = {"res": "ok", "returns_ctx": False, "batch": canon_batch(out, n), "ctx": None}
+                obs = {"res": "ok", "returns_ctx": False, "batch": cb(out), "ctx": None}
         else:
             is_pair = isinstance(out, tuple) and len(out) == 2 and isinstance(out[1], dict)
             if is_pair:
-                obs = {"res": "ok", "returns_ctx": True, "batch": canon_batch(out[0], n), "ctx": canon_ctx(out[1])}
+                obs = {"res": "ok", "returns_ctx": True, "batch": cb(out[0]), "ctx": canon_ctx(out[1])}
             else:
-                obs = {"res": "ok", "returns_ctx": False, "batch": canon_batch(out, n), "ctx": None}
+                obs = {"res": "ok", "returns_ctx": False, "batch": cb(out), "ctx": None}
     except AssertionError as e:
         obs = {"res": "EAssert", "msg": str(e)[:200]}
     except KeyError as e:
@@ -399,32 +765,43 @@ def ref_collate(cols_of_samples):
     out = []
     for p in range(n):
         col = [s[p] for s in cols_of_samples]
-        if all(isinstance(v, int) for v in col):
-            out.append(["vec", list(col)])
-        elif all(isinstance(v, list) for v in col) and len({len(v) for v in col}) == 1:
-            out.append(["mat", [list(v) for v in col]])
+        if all(v[0] == "s" and v[1] == col[0][1] for v in col):
+            out.append(["vec", col[0][1], [v[2] for v in col]])
+        elif all(v[0] == "q" and v[1:3] == col[0][1:3] for v in col) and len({len(v[3]) for v in col}) == 1:
+            out.append(["mat", col[0][1], col[0][2], [[list(e) for e in v[3]] for v in col]])
         else:
             return "ECollate"
     return out
 
 
 def ref_pad(cols_of_samples):
+    """the property's padding clause: a column of sequences -> same dtype and trailing shape, every row = the
+    sample's own steps followed by zero steps up to the largest number of steps in the batch; others as default"""
     n = len(cols_of_samples[0])
     out = []
     for p in range(n):
         col = [s[p] for s in cols_of_samples]
-        if all(isinstance(v, list) for v in col):
-            M = max(len(v) for v in col)
-            out.append(["mat", [list(v) + [0] * (M - len(v)) for v in col]])
-        elif all(isinstance(v, int) for v in col):
-            out.append(["vec", list(col)])
+        if all(v[0] == "q" and v[1:3] == col[0][1:3] for v in col):
+            M = max(len(v[3]) for v in col)
+            zero = [0] * numel(col[0][2])
+            out.append(["mat", col[0][1], col[0][2], [[list(e) for e in v[3]] + [list(zero) for _ in range(M - len(v[3]))]
+                                                      for v in col]])
+        elif all(v[0] == "s" and v[1] == col[0][1] for v in col):
+            out.append(["vec", col[0][1], [v[2] for v in col]])
         else:
             return None
     return out
 
 
-def add_c(v, c):
-    return v + c if isinstance(v, int) else [add_c(a, c) for a in v]
+def add_c(f, c):
+    """the marking member adds c to every number of a field"""
+    if f[0] == "s":
+        return ["s", f[1], f[2] + c]
+    if f[0] == "vec":
+        return ["vec", f[1], [a + c for a in f[2]]]
+    if f[0] == "q":
+        return ["q", f[1], f[2], [[a + c for a in e] for e in f[3]]]
+    return ["mat", f[1], f[2], [[[a + c for a in e] for e in r] for r in f[3]]]
 
 
 def expected(case):
@@ -467,12 +844,23 @@ def expected(case):
                 state = ["items", [[add_c(s[0], arg)] + s[1:] for s in state[1]]]
             else:
                 f0 = state[1][0]
-                state = ["coll", [[f0[0], add_c(f0[1], arg)]] + state[1][1:]]
+                state = ["coll", [add_c(f0, arg)] + state[1][1:]]
         elif kind == "ctxw" and ctx is not None:
             if any(kv[0] == arg for kv in ctx):
                 ctx = [[kk, [arg]] if kk == arg else [kk, vv] for kk, vv in ctx]
             else:
                 ctx = ctx + [[arg, [arg]]]
+        elif kind in REAL_KEYS:
+            # a real collator: keeps every item in place (x / class content is opaque here) and writes its keys
+            if state[0] != "coll":
+                return None
+            if ctx is not None:
+                for name in REAL_KEYS[kind]:
+                    kid = KEY_IDS[name]
+                    if any(kv[0] == kid for kv in ctx):
+                        ctx = [[kk, []] if kk == kid else [kk, vv] for kk, vv in ctx]
+                    else:
+                        ctx = ctx + [[kid, []]]
         elif kind == "pad":
             state = ["coll", ref_pad(state[1])]
         if k == p and md == "after":
@@ -485,8 +873,21 @@ def expected(case):
 def oracle(case, obs):
     if "harness_exception" in obs:
         return "harness exception: " + obs["harness_exception"] + obs.get("tb", "")
+    if case.get("family") == "loader":
+        return oracle_loader(case, obs)
     tr = obs["trace"]
     n_dc = sum(1 for e in tr if e[0] == "DC")
+    if case.get("probe") == "ragged_ctx_keys":
+        # the property's own words on contexts with different keys: nothing may be lost
+        want = sorted({k for _, c in samples_of(case) for k, _ in c})
+        if obs["res"] != "ok":
+            return (f"per-sample contexts with keys {[[k for k, _ in c] for _, c in samples_of(case)]}: the call raised "
+                    f"{obs['res']} {obs.get('msg', '')} instead of returning one batched context")
+        got = sorted(k for k, _ in (obs["ctx"] or []))
+        if got != want:
+            return (f"per-sample contexts with keys {[[k for k, _ in c] for _, c in samples_of(case)]}: the batched context "
+                    f"has keys {got}, key(s) {sorted(set(want) - set(got))} were lost without an error")
+        return None
     if is_ambiguous(case):
         return None
     if n_dc > 1:
@@ -535,7 +936,7 @@ def oracle(case, obs):
 # rendering to Coq
 # ---------------------------------------------------------------------------
 def coq_applicable(case, obs):
-    if "harness_exception" in obs or is_ambiguous(case):
+    if "harness_exception" in obs or is_ambiguous(case) or case.get("family") == "loader":
         return False
     if obs["res"] == "Other":
         return False
@@ -545,11 +946,15 @@ def coq_applicable(case, obs):
 
 
 def _f(v):
-    return C("FSeq", list(v)) if isinstance(v, list) else C("FScalar", v)
+    if v[0] == "s":
+        return C("FScalar", Raw(DTYPES[v[1]]), v[2])
+    return C("FSeq", Raw(DTYPES[v[1]]), [Nat(d) for d in v[2]], [list(e) for e in v[3]])
 
 
 def _cf(c):
-    return C("CVec", list(c[1])) if c[0] == "vec" else C("CMat", [list(r) for r in c[1]])
+    if c[0] == "vec":
+        return C("CVec", Raw(DTYPES[c[1]]), list(c[2]))
+    return C("CMat", Raw(DTYPES[c[1]]), [Nat(d) for d in c[2]], [[list(e) for e in r] for r in c[3]])
 
 
 def coq_case(case, obs):
@@ -558,9 +963,12 @@ def coq_case(case, obs):
         raw = C("BRaw", [([_f(v) for v in vals], [(k, v) for k, v in ctx]) for vals, ctx in smp])
     else:
         raw = C("BItems", [[_f(v) for v in vals] for vals, _ in smp])
-    mks = [(Raw(MODES[md]), {"id": C("KId"), "mark": C("KMark", arg), "ctxw": C("KCtxWrite", arg),
-                             "pad": C("KPad")}[kind]) for md, kind, arg in case["members"]]
-    entry = {"compose": 0, "single": 1, "wrapper": 2, "direct": 3}[case["entry"]]
+    def mk(kind, arg):
+        if kind in REAL_KEYS:
+            return C("KAddKeys", [KEY_IDS[name] for name in REAL_KEYS[kind]])
+        return {"id": C("KId"), "mark": C("KMark", arg), "ctxw": C("KCtxWrite", arg), "pad": C("KPad")}[kind]
+    mks = [(Raw(MODES[md]), mk(kind, arg)) for md, kind, arg in case["members"]]
+    entry = {"compose": 0, "single": 1, "wrapper": 2, "direct": 3, "mae": 0}[case["entry"]]
     tr = [C("DefaultCollate") if e[0] == "DC" else C("CollateCtx") if e[0] == "CC" else C("Call", Nat(e[1]))
           for e in obs["trace"]]
     if obs["res"] == "ok":
@@ -580,6 +988,7 @@ def coq_case(case, obs):
 
 def features(case, obs):
     yield "entry=" + case["entry"]
+    yield "family=" + case.get("family", "tiny members")
     yield "rc=%s" % case["rc"]
     yield "modes=" + ",".join(m[0][0] for m in case["members"])
     yield "res=" + obs.get("res", "harness_exception")
@@ -589,10 +998,43 @@ def features(case, obs):
         yield "ambiguous(self-collating None member followed by a collating member)"
     for m in case["members"]:
         yield "kind=" + m[1]
+    if case.get("family") == "loader":
+        yield "loader: workers=%d" % case["workers"]
+        yield "loader: batches=%d" % len(loader_batches(case))
+    yield "B=%d" % len(case["order"])
+    padded = any(m[1] == "pad" for m in case["members"])
+    for it in case["items"]:
+        k = _kind_key(case, it)
+        if k == "index":
+            yield "item=index"
+        elif k[0] == "opaque":
+            yield "item=opaque/" + k[1]
+        elif k[0] == "scalar":
+            yield "item=scalar/%s/%s" % (k[1], "python" if k[2] else "0-d tensor")
+        else:
+            yield "item=seq/rank%d" % k[2]
+            yield "item=seq/%s" % k[1]
+            if padded:
+                yield "padded seq: rank%d %s" % (k[2], k[3])
 
 
 def nontrivial_key(case, obs):
+    if case.get("family") == "loader":
+        return ("loader", case["batch_size"], case["workers"], case["drop_last"], case["entry"], case["rc"],
+                tuple((m[0], m[1]) for m in case["members"]))
     if not any(e[0] == "call" for e in obs.get("trace", [])) and case["entry"] != "direct":
         return None
     return (case["entry"], case["rc"], tuple((m[0], m[1]) for m in case["members"]),
-            tuple(case["kinds"].get(it, "index") for it in case["items"]), case["profile"])
+            tuple(_kind_key(case, it) for it in case["items"]), case["profile"])
+
+
+def _kind_key(case, it):
+    if it == "index":
+        return "index"
+    kd = kind_of(case, it)
+    if kd["k"] == "opaque":
+        return ("opaque", it)
+    if kd["k"] == "scalar":
+        return ("scalar", kd["d"], kd["py"])
+    lens = {len(case["rows"][i][it]) for i in case["order"]}
+    return ("seq", kd["d"], len(kd["tr"]) + 1, "empty" if lens == {0} else "equal" if len(lens) == 1 else "ragged")
